@@ -50,6 +50,9 @@ GenProds(G) == LET Gv == GenVars(G) IN { p \in G.prods : p[1] \in Gv /\ \A x \in
 UsefulG(G) == LET G1 == [G EXCEPT !.prods = GenProds(G)]
                   R == ReachSyms(G1)
               IN [G1 EXCEPT !.prods = { p \in G1.prods : p[1] \in R }]
+(* the useful part with only its own variables: same language, and every variable's language is
+   finite when the grammar's language is (so a large bound L stays cheap on finite languages) *)
+TrimG(G) == LET Ug == UsefulG(G) IN [Ug EXCEPT !.allv = (ReachSyms(Ug) \cap G.allv) \cup {G.start}]
 (* variables deriving some non-empty word *)
 RECURSIVE NeLfp(_,_,_)
 NeLfp(G, Gv, S) == LET S2 == S \cup { p[1] : p \in { q \in G.prods : (\A x \in BodySyms(q[2]) : (x \in Gv \/ ~IsVar(G, x)))
